@@ -41,7 +41,8 @@ Definition ops_eqb (a b : option (opk * list Z)) : bool :=
 
 Definition volu_eqb (a b : volu) : bool :=
   zlist_eqb (pluses a) (pluses b) && zlist_eqb (minuses a) (minuses b)
-  && ops_eqb (ops a) (ops b) && Bool.eqb (fictive a) (fictive b).
+  && ops_eqb (ops a) (ops b) && Bool.eqb (fictive a) (fictive b)
+  && list_eqb zpair_eqb (vorigin a) (vorigin b).
 
 Definition volus_eqb := list_eqb (pair_eqb Z.eqb volu_eqb).
 
@@ -79,7 +80,8 @@ Fixpoint geom_eqb (a b : geom) : bool :=
   end.
 
 Definition mcell_eqb (a b : mcell) : bool :=
-  Z.eqb (cuniv a) (cuniv b) && option_eqb Z.eqb (cfill a) (cfill b) && geom_eqb (cgeom a) (cgeom b).
+  Z.eqb (cuniv a) (cuniv b) && option_eqb Z.eqb (cfill a) (cfill b) && geom_eqb (cgeom a) (cgeom b)
+  && list_eqb zpair_eqb (corigin a) (corigin b) && Z.eqb (cmat a) (cmat b).
 
 Definition dic_eqb := list_eqb (pair_eqb Z.eqb mcell_eqb).
 
